@@ -263,6 +263,23 @@ fn first_content_diff(a: &[u8], b: &[u8]) -> String {
 }
 
 // ------------------------------------------------------------------------------------ C05
+/// One scenario in three (a pure function of the scenario's fingerprint, no tape bytes) also
+/// adds a custom section and appends a byte to the first existing one before the first
+/// encode: owned custom-section data is part of what every further encode must reproduce.
+fn touch_customs(b: &mut Built, fp: u64) -> bool {
+    if fp % 3 != 0 {
+        return false;
+    }
+    let Built::M(m) = b else { return false };
+    run_lib(|| {
+        if let Some(v) = m.custom_sections.get_section_data_mut(wirm::ir::id::CustomSectionID(0)) {
+            v.push(fp as u8);
+        }
+        m.custom_sections.add(wirm::ir::types::CustomSection::new("verif.c05", fp.to_le_bytes().to_vec()));
+    })
+    .is_ok()
+}
+
 pub struct Reencode;
 
 impl Driver for Reencode {
@@ -270,7 +287,7 @@ impl Driver for Reencode {
         "C05"
     }
     fn rule(&self) -> &'static str {
-        "tape -> scenario: either an edit history of 1-8 operations over the union of the C06/C07/C08 alphabets on a G-edit base (function/global/memory additions, imported additions, deletions, conversions, exports, data, initialiser replacement, injected code), or an instrumentation plan of 1-8 injections of every mode (before/after/alternate/removal/semantic-after/block-entry/-exit/-alternate/function entry/exit) through every API path on a G-static module (one time in four wrapped in a component; one time in three followed by add_func_type of signatures the module already has) -> a = encode(); b = encode(); c = encode(): a == b == c; the scenario is then rebuilt from the same tape and pull_side_effects() (which is an encode) followed by encode() must give a as well. A first encode that panics discards the case. Non-trivial: the scenario re-indexes an index space or lowers >=1 special-mode probe. Distinct = hash(scenario)."
+        "tape -> scenario: either an edit history of 1-8 operations over the union of the C06/C07/C08 alphabets on a G-edit base (function/global/memory additions, imported additions, deletions, conversions, exports, data, initialiser replacement, injected code), or an instrumentation plan of 1-8 injections of every mode (before/after/alternate/removal/semantic-after/block-entry/-exit/-alternate/function entry/exit) through every API path on a G-static module (one time in four wrapped in a component; one time in three followed by add_func_type of signatures the module already has); one module scenario in three also adds a custom section and appends a byte to the first existing one -> a = encode(); b = encode(); c = encode(): a == b == c; the scenario is then rebuilt from the same tape and pull_side_effects() (which is an encode) followed by encode() must give a as well. A first encode that panics discards the case. Non-trivial: the scenario re-indexes an index space or lowers >=1 special-mode probe. Distinct = hash(scenario)."
     }
     fn tape_len(&self) -> usize {
         3072
@@ -291,8 +308,13 @@ impl Driver for Reencode {
         let mut first: Option<Vec<u8>> = None;
         let mut nt: Option<u64> = None;
         let mut trigger = false;
+        let mut fp0 = 1u64;
         let o = scenario(c, !steer, &mut |c, mut b, info| {
             trigger = info.reindexed;
+            fp0 = info.fp;
+            if touch_customs(&mut b, info.fp) {
+                c.class("custom_section_added_or_modified_before_the_first_encode");
+            }
             let a = match run_lib(|| b.encode()) {
                 Ok(x) => x,
                 Err(_) => return Outcome::Discard("first encode fails loudly"),
@@ -332,7 +354,8 @@ impl Driver for Reencode {
         let Some(a) = first else { return o };
         // same scenario again: pull_side_effects() then encode()
         c.t = t0;
-        let o2 = scenario(c, !steer, &mut |_c, b, _info| {
+        let o2 = scenario(c, !steer, &mut |_c, mut b, _info| {
+            touch_customs(&mut b, fp0);
             let out = match b {
                 Built::M(m) => {
                     if run_lib(|| {
